@@ -17,6 +17,13 @@ EnvSets == [
                E3(Q(1, 4), Q(-8, 1), Q(2, 3)),
                E3(Q(-1, 1), Q(1, 2), Q(-4, 1)),
                E3(G(1, 1, 2, 1), G(0, 1, -1, 1), Q(3, 1)) >>,
+  \* arith plus points of the left half plane off the real axis (branch behaviour of inverse functions)
+  arithc |-> << E3(Q(2, 1), Q(3, 1), Q(5, 1)),
+                E3(Q(-2, 1), Q(-3, 1), Q(1, 2)),
+                E3(Q(1, 4), Q(-8, 1), Q(2, 3)),
+                E3(G(1, 1, 2, 1), G(0, 1, -1, 1), Q(3, 1)),
+                E3(G(-1, 1, 1, 1), G(-2, 1, -1, 2), Q(3, 1)),
+                E3(G(-1, 2, -3, 1), G(1, 1, 1, 1), Q(-1, 1)) >>,
   angle |-> << E3(PiQ(1, 3), PiQ(-1, 4), PiQ(1, 12)),
                E3(PiQ(5, 6), PiQ(1, 2), PiQ(-1, 1)),
                E3(Q(0, 1), PiQ(1, 1), PiQ(7, 12)),
